@@ -477,8 +477,8 @@ pub fn oracle_c02_live(si: &ScriptInfo, tr: &Trace, clause: &str) -> Option<Viol
 
 /// C14 on the link: "the RTT estimate is the 0.9/0.1 moving average of the samples", and a sample is the age of a frame whose
 /// acknowledgement has just arrived. Whenever a side's estimate changes, the sample implied by the change must lie between the ages (time
-/// of the step that processed the acknowledgement minus time of the flush that emitted the frame) of the youngest and the oldest of its
-/// frames acknowledged for the first time by the ack frames handed over in that round. The upper end is taken from the time a frame was
+/// of the step that processed the acknowledgement minus time of the flush that emitted the frame) of the youngest of its frames
+/// acknowledged for the first time by the ack frames handed over in that round (RFC 5348 4.3: the most recent one the feedback covers). The upper end is taken from the time a frame was
 /// stamped with: flush() uses the clock of the previous step() (noted in section 5 of DESIGN.md, no property forbids it).
 pub fn oracle_rtt_samples(tr: &Trace) -> Option<Violation> {
     for side in 0..2usize {
@@ -505,9 +505,11 @@ pub fn oracle_rtt_samples(tr: &Trace) -> Option<Violation> {
             if fresh.is_empty() {
                 return Some(viol("C14.rtt", "C14.rtt:changed-without-a-fresh-acknowledgement".into(), format!("side {}: the RTT estimate changed from {:?} to {:.4} s in round {} although no frame of this side was acknowledged for the first time in that round", side, prev, new / 1000.0, o.round)));
             }
-            let (lo, hi) = (fresh.iter().map(|x| x.0).min().unwrap() as f64, fresh.iter().map(|x| x.1).max().unwrap() as f64);
+            // RFC 5348 4.3: the sample is measured on the most recent frame the feedback covers - the youngest of the fresh ones
+            let youngest = *fresh.iter().min_by_key(|x| x.0).unwrap();
+            let (lo, hi) = (youngest.0 as f64, youngest.1 as f64);
             if sample < lo - 1.5 || sample > hi + 1.5 {
-                return Some(viol("C14.rtt", format!("C14.rtt:sample-{}", if sample < lo { "below-the-age-of-the-youngest-frame" } else { "above-the-age-of-the-oldest-frame" }), format!("side {}: in round {} (t={} ms) the RTT estimate went from {:?} to {:.4} s, i.e. a sample of {:.1} ms entered the 0.9/0.1 average; the frames acknowledged for the first time in that round were (emitted, stamped) {:?} ms before that step", side, o.round, o.t_ms, prev, new / 1000.0, sample, fresh)));
+                return Some(viol("C14.rtt", format!("C14.rtt:sample-{}", if sample < lo { "below-the-age-of-the-youngest-fresh-frame" } else { "above-the-age-of-the-youngest-fresh-frame" }), format!("side {}: in round {} (t={} ms) the RTT estimate went from {:?} to {:.4} s, i.e. a sample of {:.1} ms entered the 0.9/0.1 average; the frames acknowledged for the first time in that round were (emitted, stamped) {:?} ms before that step", side, o.round, o.t_ms, prev, new / 1000.0, sample, fresh)));
             }
         }
     }
